@@ -34,7 +34,7 @@ CHECKS = {
          "Source views x request scripts (any subset/order, bursts >132, requests racing the STAT stream, duplicate/unknown/non-file ids) x stream capacities and delays; STAT sequence compared with the independent snapshot, DATA reassembled per id and compared with the file bytes. Held on the sessions observed.",
          "Trusts the reference receiver (refrecv.go) to be conforming; ids are zero-based STAT positions per receive.go's header.", "DESIGN.md §5 C06, §4.4"),
  "C07": ("exploration", "online protocol monitor: an independent reference sender announces synthetic STAT sequences to the real Receive with seeded chunkings/interleavings; REQ/FIN ordering decided on the receiver-side event log; dest bytes read at the instant FIN arrives",
-         "STAT sequences (incl. fan-out of 350-900 files announced before the first answer) x prior destinations x DATA chunkings (1 B .. 1 MiB) x id interleavings x STAT/DATA races x early close x receiver options {rejecting Filter, unprivileged receiver}; REQ set compared with the identity model, final dest with the announced tree. Held on the sessions observed.",
+         "STAT sequences (incl. fan-out of 350-900 files announced before the first answer) x prior destinations (incl. a directory of 140-400 entries that the sequence replaces by a looping / unenterable symlink) x DATA chunkings (1 B .. 1 MiB) x id interleavings x STAT/DATA races x early close x receiver options {rejecting Filter, unprivileged receiver}; REQ set compared with the identity model, final dest with the announced tree. Held on the sessions observed.",
          "Trusts the reference sender (refsend.go) to be conforming; identity model as C02.", "DESIGN.md §5 C07, §4.4"),
  "C11": ("exploration", "runtime monitor: STAT stream of the real Send over filtered views validated by an independent stream validator (order, parents, link targets), transfer into an empty dest compared with the reference-filtered source with re-canonicalised link groups, every regular file opened through the view",
          "Trees with link groups straddling included/excluded paths x include/exclude/follow-path configurations x nested filter stacks (reference applied level by level). Known finding K1 triaged as in C10. Held on the executions observed.",
